@@ -575,12 +575,38 @@ func runOpts(payload string) string {
 		return "BADCASE"
 	}
 	// the settings as String() shows them ("... or reflected in String()")
+	// ... and the option words of what the receiver holds (a nested Stack / Condition, a Condition's Stack expression): an option
+	// switched on the receiver is the receiver's alone
+	nestOpts := func(x any) string {
+		var out []string
+		var one func(e any, deep bool)
+		one = func(e any, deep bool) {
+			if s, ok := stackage.ConvertStack(e); ok {
+				out = append(out, strconv.Itoa(int(stackage.VerifDump(s).Opt)))
+				return
+			}
+			if c, ok := stackage.ConvertCondition(e); ok {
+				out = append(out, strconv.Itoa(int(stackage.VerifDump(c).Opt)))
+				if deep {
+					one(c.Expression(), false)
+				}
+			}
+		}
+		if s, ok := x.(stackage.Stack); ok {
+			for _, e := range stackage.VerifDump(s).Elems {
+				one(e, true)
+			}
+		} else if c, ok := x.(stackage.Condition); ok {
+			one(c.Expression(), false)
+		}
+		return " NEST:" + strings.Join(out, ",")
+	}
 	str := func() string {
 		return guard(func() string {
 			if s, ok := recv.(stackage.Stack); ok {
-				return " STR:" + hx(s.String())
+				return " STR:" + hx(s.String()) + nestOpts(s)
 			}
-			return " STR:" + hx(recv.(stackage.Condition).String())
+			return " STR:" + hx(recv.(stackage.Condition).String()) + nestOpts(recv)
 		})
 	}
 	outs := []string{"init " + DumpCfg(recv) + str()}
